@@ -96,7 +96,7 @@ class Gen:
                 self.ops.append(('ONewWorker', N(i), Z(r.choice([0, 1, 1, 1, 2, 3])), self.cost()))
                 self.workers.append(('WPlain', N(i)))
             if r.random() < 0.5:
-                size = r.choice([2, 2, 3])
+                size = r.choice([2, 2, 3, 2, 2, 3, 2, 11])   # now and then more than 9 units (two-digit unit numbers)
                 self.ops.append(('ONewCumulative', N(1), Z(size), Z(r.choice([1, 2, 5, 7])), ('CostConst', Z(r.choice([0, 1, 5])))))
                 self.cumuls[1] = size
             if len(self.workers) >= 2 and r.random() < 0.7:
@@ -266,7 +266,7 @@ class Gen:
         opt = r.random() < self.pf['p_opt']
         # release dates and due dates overlap (a due date may lie before another task's release date)
         rel = r.choice([None, None, None, 0, 2, 5, 6, 9])
-        due = r.choice(self.pf.get('dues', [None, None, None, None, 3, 6, 9, 15, 25]))
+        due = r.choice(self.pf.get('dues', [None, None, None, None, 0, 3, 6, 9, 15, 25]))
         dl = r.random() < 0.5
         work = r.choice([0, 0, 0, 0, 2, 4])
         self.ops.append(('ONewTask', N(i), kind, opt, Z(work), optZ(rel), optZ(due), dl, Z(r.choice([0, 1, 1, 2, 5]))))
